@@ -566,7 +566,7 @@ def main(tier, replay=None):
     n_joint = 40 if tier == "quick" else 1000
     joint = []
     for i in range(n_joint):
-        blob = gen.rbytes(rng.choice([0, 1, 16, 100, 700, 900]) if i >= 6 else [0, 1, 2, 33, 800, 900][i])
+        blob = gen.rbytes(rng.choice([1, 16, 17, 100, 700, 900]) if i >= 6 else [1, 2, 16, 33, 800, 900][i])   # never empty: the API refuses an empty blob
         conc = {"ep": "joint", "user": i, "locator": hx(gen.fixed(rng.choice(["zeros", "ones", "ascending", "random"]), 16) if i < 4
                                                          else gen.rbytes(16)),
                 "encrypted_blob": hx(blob), "to_self_delay": gen.u32(rng.choice(list(U32) + ["random"])), "id": len(concrete)}
@@ -682,7 +682,7 @@ def main(tier, replay=None):
         "send_appointment panics on a reply signature that is not decodable (that is C14's subject): through it only replies signed "
         "by the tower are compared, other reply signatures go through the generic path",
         "hex digits are accepted in either case on the wire; key order and white space of the JSON text are not constrained",
-        "an empty request signature is refused by the API with error code 2 (as documented) and is expected to be refused",
+        "an empty request signature and an empty encrypted blob are refused by the API with error code 2 (as documented) and are expected to be refused",
         "watchtower-plugin/src/convert.rs is bound through its two wire-relevant conversions: the commitment_revocation payload "
         "(displayed txid -> locator, commitnum, penalty transaction) and the getappointment parameters; the locator rule "
         "(prefix of the reversed displayed id) is stated and checked on samples in Wire.tla",
